@@ -12,17 +12,29 @@ import (
 type Expr interface{}
 
 type (
-	EIdent  struct{ Name string }
-	ENum    struct{ V string }
-	EStr    struct{ V string }
-	EBool   struct{ V bool }
-	EUnary  struct{ Op string; X Expr }
-	EBinary struct{ Op string; X, Y Expr }
-	ECall   struct{ Fun string; Args []Expr }
-	EIndex  struct{ X, I Expr }
-	ESlice  struct{ X, Lo, Hi Expr }
-	EField  struct{ X Expr; Name string }
-	EQuant  struct {
+	EIdent struct{ Name string }
+	ENum   struct{ V string }
+	EStr   struct{ V string }
+	EBool  struct{ V bool }
+	EUnary struct {
+		Op string
+		X  Expr
+	}
+	EBinary struct {
+		Op   string
+		X, Y Expr
+	}
+	ECall struct {
+		Fun  string
+		Args []Expr
+	}
+	EIndex struct{ X, I Expr }
+	ESlice struct{ X, Lo, Hi Expr }
+	EField struct {
+		X    Expr
+		Name string
+	}
+	EQuant struct {
 		Kind  string
 		Vars  []string
 		Types []string
